@@ -601,7 +601,7 @@ func families(thorough bool) []family {
 		{name: "D", maxL: 4, blocks: []int{0, 2}, choices: all5, fixed: [3]int{0, cPar2, 0}, layouts: layouts, nameForms: []int{nfSingle, nfVar, nfTernary}, junks: []int{2}, ctxs: []int{0}, pads: []int{1, 2}},
 		{name: "A2b5", maxL: 5, blocks: []int{0, 1}, choices: all5, layouts: layouts, nameForms: sq, junks: []int{0}, ctxs: []int{0}, pads: []int{0}},
 		{name: "A2i5", maxL: 5, blocks: []int{0, 2}, choices: all5, layouts: layouts, nameForms: sq, junks: []int{0}, ctxs: []int{0}, pads: []int{0}},
-		{name: "B4", maxL: 4, blocks: []int{0, 1, 2}, choices: all5, layouts: layouts, nameForms: []int{nfVar}, junks: []int{0}, ctxs: []int{0}, pads: []int{0}},
+		{name: "B4", maxL: 4, blocks: []int{0, 1, 2}, choices: []int{cAbsent, cText, cEmpty, cPar1}, layouts: layouts, nameForms: []int{nfVar}, junks: []int{0}, ctxs: []int{0}, pads: []int{0}},
 	}
 }
 
